@@ -248,3 +248,31 @@ Proof.
     rewrite Hvar, Hk. cbn [negb]. rewrite Hle. cbn [andb]. rewrite Hz, andb_false_r.
     rewrite func_impl_zip_le by assumption. reflexivity.
 Qed.
+
+(** ** the variadic argument alone (enum("a","b"), set(...)): a spec whose only attribute is a slice *)
+Lemma flat_strs l : flat_map (fun v => match v with AStr s => [s] | _ => [] end) (map AStr l) = l.
+Proof. induction l as [|x l IH]; [reflexivity|]. cbn [map flat_map app]. rewrite IH. reflexivity. Qed.
+
+Lemma variadic_roundtrip reg fmt spec a l :
+  nodup_b (map ts_T reg) = true -> nodup_b (map ts_name reg) = true -> In spec reg ->
+  ts_fmt_custom spec = false ->
+  ts_attrs spec = [a] -> kind_eqb (ta_kind a) KSlice = true -> bytes_eqb (ta_name a) unsigned_name = false ->
+  l <> [] ->
+  let typ := {| h_T := ts_T spec; h_attrs := [{| a_K := ta_name a; a_V := AList l |}] |} in
+  hcl_type reg fmt typ = Ok (PExpr (HCall (ts_name spec) (map AStr l))) /\
+  hcl_eval reg (HCall (ts_name spec) (map AStr l)) = Ok typ.
+Proof.
+  intros HT HN Hin Hf Ea Hk Hu Hl typ.
+  assert (Efa : type_func_args spec = [a]).
+  { unfold type_func_args. rewrite Ea. cbn [filter]. rewrite Hu. reflexivity. }
+  destruct l as [|x l]; [congruence|].
+  split.
+  - unfold hcl_type. unfold typ at 1. cbn [h_T]. unfold find_T. rewrite (nodup_find _ ts_T reg spec HT Hin). rewrite Hf.
+    rewrite Efa. unfold hcl_args. rewrite Efa. unfold typ. cbn [h_attrs flat_map]. unfold find_attr. cbn [find a_K].
+    rewrite bytes_eqb_refl. cbn [a_V app map]. rewrite app_nil_r. reflexivity.
+  - unfold hcl_eval, find_name. rewrite (nodup_find _ ts_name reg spec HN Hin). rewrite Efa.
+    cbn [func_params]. rewrite Hk. cbn [orb length Nat.ltb Nat.leb negb andb combine forallb map].
+    unfold last_is_slice. rewrite Ea. cbn [rev app]. rewrite Hk. cbn [negb andb Nat.eqb length].
+    rewrite andb_false_r. cbn [func_impl]. rewrite Hk.
+    change (AStr x :: map AStr l) with (map AStr (x :: l)). rewrite flat_strs. reflexivity.
+Qed.
